@@ -61,7 +61,9 @@ TotalRuns == <<Run("json", <<"json">>), Run("total:plain", <<"total", "--diff", 
                Run("pwt", <<"print", "--with-totals", "--no-style", "--no-warn">>),
                [Run("json:now", <<"json", "--now">>) EXCEPT !.now = TRUE],
                Run("today", <<"today", "--diff", "--decimal", "--no-warn">>),
-               [Run("today:now", <<"today", "--diff", "--decimal", "--now", "--no-warn">>) EXCEPT !.now = TRUE]>>
+               [Run("today:now", <<"today", "--diff", "--decimal", "--now", "--no-warn">>) EXCEPT !.now = TRUE],
+               [Run("report:day:plain", <<"report", "--decimal", "--diff", "--now", "--no-warn">>) EXCEPT !.now = TRUE],
+               [Run("report:week:fill", <<"report", "--aggregate", "week", "--fill", "--decimal", "--now", "--no-warn">>) EXCEPT !.now = TRUE]>>
 TotalShards == {[k |-> "total", a |-> i, b |-> j] : i \in 1..NVals, j \in 0..NVals}
 TotalCases(sh) ==
     LET es == IF sh.b = 0 THEN <<E(Vals[sh.a], "")>>
@@ -96,7 +98,12 @@ DatePool == <<Ord(2019, 12, 28), Ord(2019, 12, 29), Ord(2019, 12, 30), Ord(2019,
 ND == Len(DatePool)
 Amounts == <<"1h", "-2h", "8:00 - 12:30", "45m", "0m", "10h">>
 ReportRuns ==
-    <<Run("json", <<"json">>), Run("total:plain", <<"total", "--diff", "--decimal", "--no-warn">>),
+    <<RunQ("report:month:plain", <<"report", "--aggregate", "month", "--decimal", "--diff", "--no-warn", "--since", "2020-01-01">>,
+           [NoQuery EXCEPT !.since = Ord(2020, 1, 1)]),
+      RunQ("report:week:fill", <<"report", "--aggregate", "week", "--decimal", "--fill", "--no-warn", "--until", "2020-12-31", "--since", "2019-12-30">>,
+           [NoQuery EXCEPT !.since = Ord(2019, 12, 30), !.until = Ord(2020, 12, 31)]),
+      RunQ("report:day:plain", <<"report", "--decimal", "--diff", "--no-warn", "--entry-type", "duration">>, [NoQuery EXCEPT !.etype = "duration"]),
+      Run("json", <<"json">>), Run("total:plain", <<"total", "--diff", "--decimal", "--no-warn">>),
       Run("today", <<"today", "--diff", "--decimal", "--no-warn">>),
       Run("pwt", <<"print", "--with-totals", "--no-style", "--no-warn">>)>>
     \o [i \in 1..5 |-> LET k == <<"day", "week", "month", "quarter", "year">>[i] IN
@@ -179,7 +186,11 @@ FilterRunsFor(ref) ==
                         [NoQuery EXCEPT !.until = ref, !.tags = {<<"c", "">>}, !.etype = "duration-negative"])}
         sorts == {RunQ("json:sort-asc", <<"json", "--sort", "asc">>, NoQuery), RunQ("json:sort-desc", <<"json", "--sort", "desc">>, NoQuery),
                   RunQ("json:sort-ASC", <<"json", "--sort", "ASC", "--tag", "a">>, [NoQuery EXCEPT !.tags = {<<"a", "">>}])}
-    IN  dateRuns \cup shortcuts \cup tagRuns \cup typeRuns \cup combos \cup sorts \cup {RunQ("json", <<"json">>, NoQuery)}
+        all == dateRuns \cup shortcuts \cup tagRuns \cup typeRuns \cup combos \cup sorts \cup {RunQ("json", <<"json">>, NoQuery)}
+        (* the same selections through `klog print` (canonical text of exactly the selected data) *)
+        printTwins == {[r EXCEPT !.id = "print" \o Drop(r.id, 4), !.args = <<"print", "--no-style", "--no-warn">> \o Tail(r.args)]
+                         : r \in {x \in all : StartsWith(x.id, "json") /\ ~StartsWith(x.id, "json:sort")}}
+    IN  all \cup printTwins
 SetToSeq(S) == LET RECURSIVE f(_) f(X) == IF X = {} THEN <<>> ELSE LET x == CHOOSE y \in X : TRUE IN <<x>> \o f(X \ {x}) IN f(S)
 FilterShards == {[k |-> "filter", a |-> i, b |-> j] : i \in 1..Len(RefDates), j \in 0..1}
 FilterCases(sh) ==
